@@ -11,7 +11,7 @@
 From Coq Require Import List ZArith Lia Bool Arith Reals.
 From D3 Require Import Base.Vec Gen.CollidersTables Model.AabbTree Model.Colliders Model.Bvh
                        Proofs.CollidersProofs Proofs.BvhDict Proofs.BvhProofs Proofs.BvhDetect
-                       Proofs.BvhWhitelists Proofs.BvhColliders Proofs.BvhNoAssert Proofs.BvhReal
+                       Proofs.BvhWhitelists Proofs.BvhColliders Proofs.BvhNoAssert Proofs.BvhReal Proofs.BvhIdentity
                        Base.Ops Model.AabbTreeRun Model.BvhCost.
 Import ListNotations.
 
@@ -175,6 +175,41 @@ Section Generic.
       ((exists f, dict_get feqb contacts f = Some true) <-> b = true).
   Proof. exact (BvhDetect.detect_any_consistent C le cmin cmax le_trans cmin_l cmin_r cmax_l cmax_r
                  frame feqb feqb_spec coll pose aabb_of narrow). Qed.
+  (** Identity of the objects handed out.  add_collider under a frame name that is in use REPLACES
+      the registered object (same number of colliders: the tree rebuilt by the next update has the
+      same size and layout); [Remove] = the caller deletes an entry of the public dict.  In both
+      cases the old object stays behind as payload of a tree leaf until update_collider_poses.
+      After any history of Add (new or used names) / Remove / SetTm / SetWl / UpdatePoses that ends
+      with update_collider_poses, aabb_overlapping_colliders returns under each frame name exactly the
+      object registered under that name NOW (never a replaced or removed one), and that object's
+      current aabb overlaps the query box. *)
+  Theorem query_returns_registered_object : forall st0 h st q wl r,
+    NoDup (map fst (cs_ st0)) -> Forall good (heap_ st0) ->
+    run_ops st0 (h ++ [UpdatePoses frame pose]) = XOk st ->
+    NoDup (map snd (cs_ st)) ->
+    aabb_overlapping_colliders C le frame feqb coll pose st q wl = XOk r ->
+    forall f o, In (f, o) r ->
+      dict_get feqb (cs_ st) f = Some o /\
+      exists c, nth_error (heap_ st) o = Some c /\ overlap (aabb_of c) q = true.
+  Proof. exact (history_query_identity C le cmin cmax czero go_left cost_ok le_trans cmin_l cmin_r
+                 cmax_l cmax_r frame feqb feqb_spec coll pose upd aabb_of good at_pose upd_good upd_at). Qed.
+
+  (** what the two registry operations do to the frame -> object map *)
+  Theorem add_collider_registers_object : forall st f o st',
+    add_collider C cmin cmax czero go_left cost_ok frame feqb coll pose aabb_of st f o = XOk st' ->
+    dict_get feqb (cs_ st') f = Some o /\
+    (forall g, g <> f -> dict_get feqb (cs_ st') g = dict_get feqb (cs_ st) g) /\
+    (In f (map fst (cs_ st)) -> length (cs_ st') = length (cs_ st)) /\
+    (~ In f (map fst (cs_ st)) -> length (cs_ st') = S (length (cs_ st))).
+  Proof. exact (add_collider_registers C cmin cmax czero go_left cost_ok frame feqb feqb_spec coll pose aabb_of). Qed.
+
+  Theorem remove_collider_unregisters_object : forall st f st',
+    NoDup (map fst (cs_ st)) ->
+    remove_collider C frame feqb coll pose st f = XOk st' ->
+    dict_get feqb (cs_ st') f = None /\
+    (forall g, g <> f -> dict_get feqb (cs_ st') g = dict_get feqb (cs_ st) g) /\
+    S (length (cs_ st')) = length (cs_ st) /\ heap_ st' = heap_ st.
+  Proof. exact (remove_collider_unregisters C frame feqb feqb_spec coll pose). Qed.
 End Generic.
 
 (** poses_current with the collider state machine of C14 plugged in: [upd] = update_pose with
@@ -385,6 +420,23 @@ Proof.
     + simpl. intros [H|[]]; discriminate.
 Qed.
 
+(** Replacement and removal + re-adding on the integer world (hypotheses of
+    [query_returns_registered_object] hold: empty start, any [good]): object 3 takes the place of
+    object 1 under frame 1; the tree built by the next update has as many rows as before, and the
+    query hands out object 3 under the name 1, not object 1. *)
+Example C06_identity_nonvacuous :
+  let st0 := init Z nat Z Z [0; 0; 0; 0]%Z (fun _ => None) in
+  (exists st, zrun st0 ((zhist ++ [UpdatePoses nat Z; Add nat Z 1 3]) ++ [UpdatePoses nat Z]) = XOk st /\
+     NoDup (map snd (colliders _ _ _ _ st)) /\ colliders _ _ _ _ st = [(0, 0); (1, 3); (2, 2)] /\
+     aabb_overlapping_colliders Z Z.leb nat Nat.eqb Z Z st (zbar 0) [] = XOk [(1, 3); (0, 0)]) /\
+  (exists st, zrun st0 ((zhist ++ [UpdatePoses nat Z; Remove nat Z 1; Add nat Z 1 3]) ++ [UpdatePoses nat Z]) = XOk st /\
+     NoDup (map snd (colliders _ _ _ _ st)) /\ colliders _ _ _ _ st = [(0, 0); (2, 2); (1, 3)] /\
+     aabb_overlapping_colliders Z Z.leb nat Nat.eqb Z Z st (zbar 0) [] = XOk [(1, 3); (0, 0)]).
+Proof.
+  split; eexists; (split; [vm_compute; reflexivity|]); simpl;
+    (split; [repeat constructor; simpl; intuition discriminate|]); split; reflexivity.
+Qed.
+
 (** One collider object registered under two frames: update_collider_poses leaves it at the
     transform of the LAST of its frames, so poses_current needs the no-aliasing hypothesis. *)
 Theorem poses_current_aliasing_refuted :
@@ -407,6 +459,9 @@ Print Assumptions detect_spec.
 Print Assumptions detect_spec_symmetric.
 Print Assumptions detect_any_spec.
 Print Assumptions detect_any_consistent.
+Print Assumptions query_returns_registered_object.
+Print Assumptions add_collider_registers_object.
+Print Assumptions remove_collider_unregisters_object.
 Print Assumptions poses_current_colliders.
 Print Assumptions bvh_box_query_exact_after_history.
 Print Assumptions fill_tree_is_a_history.
@@ -421,4 +476,5 @@ Print Assumptions generated_whitelists_can_be_asymmetric.
 Print Assumptions Z_order_ok6.
 Print Assumptions znarrow_aabb.
 Print Assumptions C06_nonvacuous.
+Print Assumptions C06_identity_nonvacuous.
 Print Assumptions poses_current_aliasing_refuted.
